@@ -470,7 +470,15 @@ class RichGen:
         if k == 7:
             return ("arr", [self.value(env, names, depth - 1) for _ in range(r.below(3))])
         if k == 8 and names:
-            return norm_interp([("pre-", [("name", r.choice(names))]), ("-post", None)])
+            # one to three references in one string: which of them is unknown / secret must not depend on its position
+            parts = []
+            for i in range(1 + r.below(3)):
+                pth = [("name", r.choice(names))]
+                if r.chance(1, 3):
+                    pth.append(r.choice([("name", "val"), ("name", "user"), ("idx", 0), ("name", "tok")]))
+                parts.append((["pre-", ":", "/"][i], pth))
+            parts.append((r.choice(["-post", ""]), None))
+            return norm_interp(parts)
         if k == 9:
             # delimiter: literal, reference, or a (known) secret; elements may be unknown (dangling, provider output, bad ciphertext)
             d = r.below(5)
@@ -599,6 +607,11 @@ def flag_matrix_worlds():
                     ("j2", ("join", d, ("arr", [("str", "k"), a]))),
                     ("t", ("tojson", ("obj", [("p", a), ("q", b)]))),
                     ("i", norm_interp([("pre-", [("name", "j")]), ("-post", None)])),
+                    ("i2", norm_interp([("<", a[1] if a[0] == "sym" else [("name", "sec")]), ("|", b[1] if b[0] == "sym" else [("name", "o"), ("name", "val")]), (">", None)])),
+                    ("i3", norm_interp([("<", b[1] if b[0] == "sym" else [("name", "o"), ("name", "val")]), ("|", a[1] if a[0] == "sym" else [("name", "sec")]), (">", None)])),
+                    ("ii", norm_interp([("x", [("name", "i2")]), ("y", [("name", "i")]), ("z", None)])),
+                    ("iii", norm_interp([("[", [("name", "ii")]), ("]", None)])),
+                    ("ts", ("tostring", ("sym", [("name", "i2")]))),
                     ("after", ("str", "still evaluated"))]
                 c = case_from_graph({"root": {"imports": [], "values": vals}}, "root")
                 c["provs"] = {"pm": {"in": "always", "out": out_schema_of(const), "beh": "const", "const": const}}
